@@ -108,6 +108,7 @@ func (d *delegation) getRewardComputationData(epoch uint32) (found bool, rd *Rew
 func (d *delegation) getFund(key []byte) (f *Fund, err error)
   trusted
   ensures  err == nil ==> f != nil && fresh(f) && f.Value != nil && fresh(f.Value) && big(f.Value) == fundValue(d, key) && fundValue(d, key) >= 0
+  ensures  err == nil ==> f.Epoch == fundEpoch(d, key)
   assigns  nothing
 
 func (d *delegation) isOwner(address []byte) (r bool)
@@ -162,4 +163,546 @@ loop 1
   invariant big(totalRewards) <= sumRewards(d, old(delegator.RewardsCheckpoint), i)
   invariant big(activeFund.Value) == fundValue(d, delegator.ActiveFund)
   invariant big(delegator.UnClaimedRewards) == old(big(delegator.UnClaimedRewards)) && big(zero) == 0
+@*/
+
+// ---- C40: a failed nested system contract call leaves no storage effects (appended block, agent M) ----
+/*@
+// pending storage of the execution context: storageUpdate[address][key]; "has a pending write" and its content
+spec fn pendHas(h *vmContext, a string, k string) bool = has(h.storageUpdate, a) && has(h.storageUpdate[a], k)
+spec fn pendVal(h *vmContext, a string, k string) string = str(h.storageUpdate[a][k])
+
+// committed state behind the context (the accounts trie read through the blockchain hook): a function of the key contents
+spec fn chainFails(h vm.BlockchainHook, a string, k string) bool
+spec fn chainVal(h vm.BlockchainHook, a string, k string) string
+
+func (h vm.BlockchainHook) GetStorageData(accountAddress []byte, index []byte) (r []byte, err error)
+  ensures  committed-read: (err != nil <==> chainFails(h, str(accountAddress), str(index))) && (err == nil ==> str(r) == chainVal(h, str(accountAddress), str(index)))
+  assigns  nothing
+
+func (host *vmContext) SetStorageForAddress(address []byte, key []byte, value []byte)
+  requires pending-map-present: host.storageUpdate != nil
+  requires inner-map-present: has(host.storageUpdate, str(address)) ==> host.storageUpdate[str(address)] != nil
+  ensures  written: pendHas(host, old(str(address)), old(str(key))) && pendVal(host, old(str(address)), old(str(key))) == old(str(value))
+  ensures  stored-copy-is-fresh: fresh(host.storageUpdate[old(str(address))][old(str(key))])
+  ensures  other-addresses-kept: forall a string :: a != old(str(address)) ==> (has(host.storageUpdate, a) <==> old(has(host.storageUpdate, a))) && host.storageUpdate[a] == old(host.storageUpdate[a])
+  ensures  inner-map-kept: old(has(host.storageUpdate, str(address))) ==> host.storageUpdate[old(str(address))] == old(host.storageUpdate[str(address)])
+  ensures  same-map: host.storageUpdate == old(host.storageUpdate)
+  assigns  mapof(host.storageUpdate), mapof(host.storageUpdate[str(address)])
+
+func (host *vmContext) SetStorage(key []byte, value []byte)
+  requires pending-map-present: host.storageUpdate != nil
+  requires inner-map-present: has(host.storageUpdate, str(host.scAddress)) ==> host.storageUpdate[str(host.scAddress)] != nil
+  ensures  written: pendHas(host, old(str(host.scAddress)), old(str(key))) && pendVal(host, old(str(host.scAddress)), old(str(key))) == old(str(value))
+  ensures  same-map: host.storageUpdate == old(host.storageUpdate)
+  assigns  mapof(host.storageUpdate), mapof(host.storageUpdate[str(host.scAddress)])
+
+func (host *vmContext) GetStorageFromAddress(address []byte, key []byte) (r []byte)
+  requires hook-present: host.blockChainHook != nil
+  ensures  pending-write-wins: pendHas(host, str(address), str(key)) ==> r == host.storageUpdate[str(address)][str(key)]
+  ensures  committed-otherwise: !pendHas(host, str(address), str(key)) ==> (chainFails(host.blockChainHook, str(address), str(key)) ? len(r) == 0 : str(r) == chainVal(host.blockChainHook, str(address), str(key)))
+  assigns  nothing
+
+func (host *vmContext) GetStorage(key []byte) (r []byte)
+  requires hook-present: host.blockChainHook != nil
+  ensures  pending-write-wins: pendHas(host, str(host.scAddress), str(key)) ==> r == host.storageUpdate[str(host.scAddress)][str(key)]
+  ensures  committed-otherwise: !pendHas(host, str(host.scAddress), str(key)) ==> (chainFails(host.blockChainHook, str(host.scAddress), str(key)) ? len(r) == 0 : str(r) == chainVal(host.blockChainHook, str(host.scAddress), str(key)))
+  assigns  nothing
+
+func (host *vmContext) SetSCAddress(addr []byte)
+  ensures  host.scAddress == addr
+  assigns  host.scAddress
+
+// the snapshot of the caller's context taken before the inner call: exactly what the code does. The pending-storage map is
+// SHARED with the caller's context (cause of F40), see lemma snapshot-isolated-from-callee-writes
+func (host *vmContext) copyToNewContext() (r *vmContext)
+  ensures  new-object: fresh(r)
+  ensures  same-accounts-output-address: r.outputAccounts == host.outputAccounts && r.output == host.output && r.scAddress == host.scAddress
+  ensures  shares-pending-storage: r.storageUpdate == host.storageUpdate
+  assigns  nothing
+
+func (host *vmContext) softCleanCache()
+  ensures  pending-storage-kept: host.storageUpdate == old(host.storageUpdate)
+  ensures  accounts-and-output-empty: fresh(host.outputAccounts) && len(host.outputAccounts) == 0 && len(host.output) == 0 && host.returnMessage == ""
+  assigns  host.outputAccounts, host.output, host.returnMessage
+
+func (host *vmContext) AddReturnMessage(message string)
+  assigns  host.returnMessage
+
+extern func (o *vmcommon.OutputAccount) MergeOutputAccounts(outAcc *vmcommon.OutputAccount)
+  assigns  fields(o), big(o.BalanceDelta), mapof(o.StorageUpdates)
+
+// merging the snapshot back after the inner call. The only caller passes the snapshot made by copyToNewContext, whose
+// pending-storage map IS the context's map (shares-pending-storage; softCleanCache, SetSCAddress and the storage setters
+// keep the map object): under that precondition the merge changes no pending entry. No assigns clause: the writes go to
+// the inner maps of every address (no frame target names them all), callers learn the post-state from the ensures only.
+func (host *vmContext) mergeContext(currContext *vmContext)
+  nosafety
+  requires snapshot-shares-pending-storage: currContext != nil && currContext.storageUpdate == host.storageUpdate && host.storageUpdate != nil
+  ensures  pending-storage-unchanged: forall a string, k string :: (pendHas(host, a, k) <==> old(pendHas(host, a, k))) && pendVal(host, a, k) == old(pendVal(host, a, k))
+  ensures  same-map: host.storageUpdate == old(host.storageUpdate)
+  ensures  caller-address-restored: host.scAddress == old(currContext.scAddress)
+  ensures  hook-kept: host.blockChainHook == old(host.blockChainHook)
+
+loop 1
+  invariant host.storageUpdate == old(host.storageUpdate) && currContext.storageUpdate == host.storageUpdate
+  invariant forall a string :: (has(host.storageUpdate, a) <==> old(has(host.storageUpdate, a))) && host.storageUpdate[a] == old(host.storageUpdate[a])
+  invariant forall a string, k string :: (has(host.storageUpdate[a], k) <==> old(has(host.storageUpdate[a], k))) && host.storageUpdate[a][k] == old(host.storageUpdate[a][k])
+
+loop 2
+  invariant host.storageUpdate == old(host.storageUpdate) && currContext.storageUpdate == host.storageUpdate
+  invariant has(host.storageUpdate, key) && storageUpdate == host.storageUpdate[key]
+  invariant forall a string :: (has(host.storageUpdate, a) <==> old(has(host.storageUpdate, a))) && host.storageUpdate[a] == old(host.storageUpdate[a])
+  invariant forall a string, k string :: (has(host.storageUpdate[a], k) <==> old(has(host.storageUpdate[a], k))) && host.storageUpdate[a][k] == old(host.storageUpdate[a][k])
+
+loop 3
+  invariant host.storageUpdate == old(host.storageUpdate) && currContext.storageUpdate == host.storageUpdate
+  invariant forall a string :: (has(host.storageUpdate, a) <==> old(has(host.storageUpdate, a))) && host.storageUpdate[a] == old(host.storageUpdate[a])
+  invariant forall a string, k string :: (has(host.storageUpdate[a], k) <==> old(has(host.storageUpdate[a], k))) && host.storageUpdate[a][k] == old(host.storageUpdate[a][k])
+
+// value transfer recorded in the output accounts; pending storage is outside its frame
+func (host *vmContext) Transfer(destination []byte, sender []byte, value *big.Int, input []byte, gasLimit uint64) (err error)
+  requires accounts-map-present: host.outputAccounts != nil && value != nil
+  requires listed-accounts-well-formed: (has(host.outputAccounts, str(sender)) ==> host.outputAccounts[str(sender)] != nil && host.outputAccounts[str(sender)].BalanceDelta != nil) && (has(host.outputAccounts, str(destination)) ==> host.outputAccounts[str(destination)] != nil && host.outputAccounts[str(destination)].BalanceDelta != nil)
+  requires one-account-object-per-address: str(sender) != str(destination) && has(host.outputAccounts, str(sender)) && has(host.outputAccounts, str(destination)) ==> host.outputAccounts[str(sender)] != host.outputAccounts[str(destination)] && host.outputAccounts[str(sender)].BalanceDelta != host.outputAccounts[str(destination)].BalanceDelta
+  ensures  never-fails: err == nil
+  ensures  both-accounts-listed: has(host.outputAccounts, old(str(sender))) && has(host.outputAccounts, old(str(destination)))
+  assigns  mapof(host.outputAccounts), big(host.outputAccounts[str(sender)].BalanceDelta), big(host.outputAccounts[str(destination)].BalanceDelta), host.outputAccounts[str(destination)].OutputTransfers, elems(host.outputAccounts[str(destination)].OutputTransfers)
+
+// ---- the claim of C40 as lemmas over the verified contracts, in the order ExecuteOnDestContext performs the steps
+// (ExecuteOnDestContext itself: contract.Execute calls back into this very context, an effect no interface frame can name). The inner contract
+// is represented by the smallest failing body: one SetStorage, then a return code other than Ok (on which ExecuteOnDestContext
+// only replaces outputAccounts).
+
+// a snapshot that is to be restored after a failure must not be written by the callee (FAILS: F40)
+lemma snapshot-isolated-from-callee-writes
+  vars host *vmContext
+  hyp  host != nil && host.storageUpdate != nil
+  call snap = host.copyToNewContext()
+  concl own-pending-storage: snap.storageUpdate != host.storageUpdate
+
+// the property: the caller continues on the storage as it was before the failed call (FAILS: F40)
+lemma failed-nested-call-reverts-storage
+  vars host *vmContext, dest []byte, k []byte, v []byte, ds string, ks string, s0 string, sv string
+  hyp  host != nil && host.storageUpdate != nil && ds == str(dest) && ks == str(k) && sv == str(v)
+  hyp  has(host.storageUpdate, ds) && host.storageUpdate[ds] != nil && pendHas(host, ds, ks) && pendVal(host, ds, ks) == s0
+  call snap = host.copyToNewContext()
+  call _ = host.softCleanCache()
+  call _ = host.SetSCAddress(dest)
+  call _ = host.SetStorage(k, v)
+  call _ = host.mergeContext(snap)
+  concl revert-on-failure: pendVal(host, ds, ks) == s0
+
+// what the code does instead: the write of the failed call is what the caller reads afterwards (proved)
+lemma failed-nested-call-write-survives
+  vars host *vmContext, dest []byte, k []byte, v []byte, ds string, ks string, s0 string, sv string
+  hyp  host != nil && host.storageUpdate != nil && host.blockChainHook != nil && ds == str(dest) && ks == str(k) && sv == str(v)
+  hyp  has(host.storageUpdate, ds) && host.storageUpdate[ds] != nil && pendHas(host, ds, ks) && pendVal(host, ds, ks) == s0
+  call snap = host.copyToNewContext()
+  call _ = host.softCleanCache()
+  call _ = host.SetSCAddress(dest)
+  call _ = host.SetStorage(k, v)
+  call _ = host.mergeContext(snap)
+  concl write-still-pending: pendHas(host, ds, ks) && pendVal(host, ds, ks) == sv
+
+// the top-level statement of C40 on the real entry point (not in the spec's function list: the inner contract.Execute re-enters
+// the context, so the verifier has to forget the whole heap at that call; kept as the specification the lemmas above stand for)
+func (host *vmContext) ExecuteOnDestContext(destination []byte, sender []byte, value *big.Int, input []byte) (r *vmcommon.VMOutput, err error)
+  nosafety
+  requires host.storageUpdate != nil && host.outputAccounts != nil
+  ensures  revert-on-failure: err == nil && r != nil && r.ReturnCode != vmcommon.Ok ==> (forall a string, k string :: (pendHas(host, a, k) <==> old(pendHas(host, a, k))) && pendVal(host, a, k) == old(pendVal(host, a, k)))
+@*/
+
+// ---- C39: staking queue and staked-node counter (appended block, agent M) ----
+/*@
+// GHOST MODEL of the staking contract's typed records in system-SC storage. The contract reads and writes its records through
+// eei.GetStorage/SetStorage plus the marshalizer; the typed accessors (getConfig/setConfig, get/saveWaitingListElement,
+// get/saveWaitingListHead) are TRUSTED to be a faithful round trip onto ghost cells: for the environment e, key content k and
+// field number f, qint(e,k,f)[0] is an integer field and qstr(e,k,f)[0] a byte-string field of the record stored under k
+// (f = 0 of qint: 1 = a record is stored). `assigns elems(cell)` writes exactly that cell; the inverse functions make cells of
+// different keys / fields distinct.
+spec fn qint(e vm.SystemEI, k string, f int) []int
+  axiom qiKey(base(qint(e, k, f))) == k
+  axiom qiFld(base(qint(e, k, f))) == f
+spec fn qstr(e vm.SystemEI, k string, f int) []string
+  axiom qsKey(base(qstr(e, k, f))) == k
+  axiom qsFld(base(qstr(e, k, f))) == f
+spec fn qiKey(r ref) string
+spec fn qiFld(r ref) int
+spec fn qsKey(r ref) string
+spec fn qsFld(r ref) int
+
+// -- node counters (record under nodesConfigKey; absent = the configured minimum/maximum and zero counters)
+spec fn cfgStored(e vm.SystemEI) bool = qint(e, nodesConfigKey, 0)[0] == 1
+spec fn effStaked(s *stakingSC) int = cfgStored(s.eei) ? qint(s.eei, nodesConfigKey, 3)[0] : 0
+spec fn effJailed(s *stakingSC) int = cfgStored(s.eei) ? qint(s.eei, nodesConfigKey, 4)[0] : 0
+spec fn effMin(s *stakingSC) int = cfgStored(s.eei) ? qint(s.eei, nodesConfigKey, 1)[0] : int64(s.minNumNodes)
+spec fn effMax(s *stakingSC) int = cfgStored(s.eei) ? qint(s.eei, nodesConfigKey, 2)[0] : int64(s.maxNumNodes)
+
+func (s *stakingSC) getConfig() (c *StakingNodesConfig)
+  trusted
+  ensures  fresh-record: c != nil && fresh(c)
+  ensures  reads-counters: c.StakedNodes == effStaked(s) && c.JailedNodes == effJailed(s) && c.MinNumNodes == effMin(s) && c.MaxNumNodes == effMax(s)
+  assigns  nothing
+
+func (s *stakingSC) setConfig(config *StakingNodesConfig)
+  trusted
+  requires config != nil
+  ensures  writes-counters: cfgStored(s.eei) && effStaked(s) == config.StakedNodes && effJailed(s) == config.JailedNodes && effMin(s) == config.MinNumNodes && effMax(s) == config.MaxNumNodes
+  assigns  elems(qint(s.eei, nodesConfigKey, 0)), elems(qint(s.eei, nodesConfigKey, 1)), elems(qint(s.eei, nodesConfigKey, 2)), elems(qint(s.eei, nodesConfigKey, 3)), elems(qint(s.eei, nodesConfigKey, 4))
+
+func (s *stakingSC) addToStakedNodes(value int64)
+  requires counter-fits-int64: -9223372036854775808 <= effStaked(s) + value && effStaked(s) + value <= 9223372036854775807
+  ensures  counter-moved-by-value: effStaked(s) == old(effStaked(s)) + value
+  ensures  rest-kept: effJailed(s) == old(effJailed(s)) && effMin(s) == old(effMin(s)) && effMax(s) == old(effMax(s))
+  assigns  elems(qint(s.eei, nodesConfigKey, 0)), elems(qint(s.eei, nodesConfigKey, 1)), elems(qint(s.eei, nodesConfigKey, 2)), elems(qint(s.eei, nodesConfigKey, 3)), elems(qint(s.eei, nodesConfigKey, 4))
+
+func (s *stakingSC) removeFromStakedNodes()
+  ensures  counter-decremented-not-below-zero: effStaked(s) == (old(effStaked(s)) > 0 ? old(effStaked(s)) - 1 : old(effStaked(s)))
+  ensures  rest-kept: effJailed(s) == old(effJailed(s)) && effMin(s) == old(effMin(s)) && effMax(s) == old(effMax(s))
+  assigns  elems(qint(s.eei, nodesConfigKey, 0)), elems(qint(s.eei, nodesConfigKey, 1)), elems(qint(s.eei, nodesConfigKey, 2)), elems(qint(s.eei, nodesConfigKey, 3)), elems(qint(s.eei, nodesConfigKey, 4))
+
+func (s *stakingSC) removeFromJailedNodes()
+  ensures  jailed-decremented-not-below-zero: effJailed(s) == (old(effJailed(s)) > 0 ? old(effJailed(s)) - 1 : old(effJailed(s)))
+  ensures  rest-kept: effStaked(s) == old(effStaked(s)) && effMin(s) == old(effMin(s)) && effMax(s) == old(effMax(s))
+  assigns  elems(qint(s.eei, nodesConfigKey, 0)), elems(qint(s.eei, nodesConfigKey, 1)), elems(qint(s.eei, nodesConfigKey, 2)), elems(qint(s.eei, nodesConfigKey, 3)), elems(qint(s.eei, nodesConfigKey, 4))
+
+func (s *stakingSC) numSpareNodes() (r int64)
+  requires difference-fits-int64: -9223372036854775808 <= effStaked(s) - effJailed(s) - effMin(s) && effStaked(s) - effJailed(s) - effMin(s) <= 9223372036854775807 && -9223372036854775808 <= effStaked(s) - effJailed(s) && effStaked(s) - effJailed(s) <= 9223372036854775807
+  ensures  spare: r == effStaked(s) - effJailed(s) - effMin(s)
+  assigns  nothing
+
+func (s *stakingSC) canStake() (r bool)
+  ensures  below-maximum: r <==> effStaked(s) < effMax(s)
+  assigns  nothing
+
+func (s *stakingSC) canStakeIfOneRemoved() (r bool)
+  ensures  at-most-maximum: r <==> effStaked(s) <= effMax(s)
+  assigns  nothing
+
+func (s *stakingSC) canUnStake() (r bool)
+  requires difference-fits-int64: -9223372036854775808 <= effStaked(s) - effJailed(s) - effMin(s) && effStaked(s) - effJailed(s) - effMin(s) <= 9223372036854775807 && -9223372036854775808 <= effStaked(s) - effJailed(s) && effStaked(s) - effJailed(s) <= 9223372036854775807
+  ensures  above-minimum: r <==> effStaked(s) - effJailed(s) > effMin(s)
+  assigns  nothing
+
+func (s *stakingSC) canUnBond() (r bool)
+  requires difference-fits-int64: -9223372036854775808 <= effStaked(s) - effJailed(s) - effMin(s) && effStaked(s) - effJailed(s) - effMin(s) <= 9223372036854775807 && -9223372036854775808 <= effStaked(s) - effJailed(s) && effStaked(s) - effJailed(s) <= 9223372036854775807
+  ensures  at-least-minimum: r <==> effStaked(s) - effJailed(s) >= effMin(s)
+  assigns  nothing
+
+// a stake guarded by canStake keeps the counter within the maximum; an unstake guarded by canUnStake keeps it at the minimum
+lemma guarded-stake-keeps-maximum
+  vars s *stakingSC
+  hyp  s != nil && effStaked(s) <= 9223372036854775806 && effStaked(s) >= -9223372036854775808
+  call ok = s.canStake()
+  call _ = s.addToStakedNodes(1)
+  concl within-maximum: ok ==> effStaked(s) <= effMax(s)
+
+lemma guarded-unstake-keeps-minimum
+  vars s *stakingSC
+  hyp  s != nil && 0 <= effJailed(s) && 0 <= effMin(s) && effMin(s) <= 4611686018427387904 && effJailed(s) <= 4611686018427387904 && 0 <= effStaked(s) && effStaked(s) <= 4611686018427387904
+  call ok = s.canUnStake()
+  call _ = s.removeFromStakedNodes()
+  concl at-least-minimum: ok ==> effStaked(s) - effJailed(s) >= effMin(s)
+@*/
+
+/*@
+// -- C39, waiting list (queue). Element record under key k: qint(k,20) = 1 if stored, qstr(k,21..23) = BLSPublicKey, PreviousKey,
+// NextKey. Head record under waitingListHeadKey: qint(.,10) = Length, qstr(.,11..13) = FirstKey, LastKey, LastJailedKey
+// (a removed head reads as Length 0 and empty keys, as getWaitingListHead returns it).
+spec fn elPresent(e vm.SystemEI, k string) bool = qint(e, k, 20)[0] == 1
+spec fn elBls(e vm.SystemEI, k string) string = qstr(e, k, 21)[0]
+spec fn elPrev(e vm.SystemEI, k string) string = qstr(e, k, 22)[0]
+spec fn elNext(e vm.SystemEI, k string) string = qstr(e, k, 23)[0]
+spec fn hdLen(e vm.SystemEI) int = qint(e, waitingListHeadKey, 10)[0]
+spec fn hdFirst(e vm.SystemEI) string = qstr(e, waitingListHeadKey, 11)[0]
+spec fn hdLast(e vm.SystemEI) string = qstr(e, waitingListHeadKey, 12)[0]
+spec fn hdJailed(e vm.SystemEI) string = qstr(e, waitingListHeadKey, 13)[0]
+
+func (s *stakingSC) getWaitingListElement(key []byte) (el *ElementInList, err error)
+  trusted
+  ensures  absent-is-error: !elPresent(s.eei, str(key)) ==> err != nil
+  ensures  failure-returns-nil: err != nil ==> el == nil
+  ensures  reads-element: err == nil ==> elPresent(s.eei, str(key)) && el != nil && fresh(el) && fresh(el.BLSPublicKey) && fresh(el.PreviousKey) && fresh(el.NextKey) && str(el.BLSPublicKey) == elBls(s.eei, str(key)) && str(el.PreviousKey) == elPrev(s.eei, str(key)) && str(el.NextKey) == elNext(s.eei, str(key))
+  assigns  nothing
+
+func (s *stakingSC) saveWaitingListElement(key []byte, element *ElementInList) (err error)
+  trusted
+  requires element != nil
+  ensures  writes-element: err == nil ==> elPresent(s.eei, str(key)) && elBls(s.eei, str(key)) == str(element.BLSPublicKey) && elPrev(s.eei, str(key)) == str(element.PreviousKey) && elNext(s.eei, str(key)) == str(element.NextKey)
+  ensures  failure-writes-nothing: err != nil ==> (elPresent(s.eei, str(key)) <==> old(elPresent(s.eei, str(key)))) && elBls(s.eei, str(key)) == old(elBls(s.eei, str(key))) && elPrev(s.eei, str(key)) == old(elPrev(s.eei, str(key))) && elNext(s.eei, str(key)) == old(elNext(s.eei, str(key)))
+  assigns  elems(qint(s.eei, str(key), 20)), elems(qstr(s.eei, str(key), 21)), elems(qstr(s.eei, str(key), 22)), elems(qstr(s.eei, str(key), 23))
+
+func (s *stakingSC) getWaitingListHead() (wl *WaitingList, err error)
+  trusted
+  ensures  failure-returns-nil: err != nil ==> wl == nil
+  ensures  reads-head: err == nil ==> wl != nil && fresh(wl) && fresh(wl.FirstKey) && fresh(wl.LastKey) && fresh(wl.LastJailedKey) && wl.Length == hdLen(s.eei) && str(wl.FirstKey) == hdFirst(s.eei) && str(wl.LastKey) == hdLast(s.eei) && str(wl.LastJailedKey) == hdJailed(s.eei)
+  assigns  nothing
+
+func (s *stakingSC) saveWaitingListHead(waitingList *WaitingList) (err error)
+  trusted
+  requires waitingList != nil
+  ensures  writes-head: err == nil ==> hdLen(s.eei) == waitingList.Length && hdFirst(s.eei) == str(waitingList.FirstKey) && hdLast(s.eei) == str(waitingList.LastKey) && hdJailed(s.eei) == str(waitingList.LastJailedKey)
+  ensures  failure-writes-nothing: err != nil ==> hdLen(s.eei) == old(hdLen(s.eei)) && hdFirst(s.eei) == old(hdFirst(s.eei)) && hdLast(s.eei) == old(hdLast(s.eei)) && hdJailed(s.eei) == old(hdJailed(s.eei))
+  assigns  elems(qint(s.eei, waitingListHeadKey, 10)), elems(qstr(s.eei, waitingListHeadKey, 11)), elems(qstr(s.eei, waitingListHeadKey, 12)), elems(qstr(s.eei, waitingListHeadKey, 13))
+
+func (s *stakingSC) createWaitingListKey(blsKey []byte) (r []byte)
+  ensures  prefixed-key: str(r) == concat(waitingElementPrefix, str(blsKey)) && fresh(r)
+  assigns  nothing
+
+func (s *stakingSC) saveElementAndList(key []byte, element *ElementInList, waitingList *WaitingList) (err error)
+  requires element != nil && waitingList != nil
+  ensures  writes-element: err == nil ==> elPresent(s.eei, str(key)) && elBls(s.eei, str(key)) == str(element.BLSPublicKey) && elPrev(s.eei, str(key)) == str(element.PreviousKey) && elNext(s.eei, str(key)) == str(element.NextKey)
+  ensures  writes-head: err == nil ==> hdLen(s.eei) == waitingList.Length && hdFirst(s.eei) == str(waitingList.FirstKey) && hdLast(s.eei) == str(waitingList.LastKey) && hdJailed(s.eei) == str(waitingList.LastJailedKey)
+  assigns  elems(qint(s.eei, str(key), 20)), elems(qstr(s.eei, str(key), 21)), elems(qstr(s.eei, str(key), 22)), elems(qstr(s.eei, str(key), 23)), elems(qint(s.eei, waitingListHeadKey, 10)), elems(qstr(s.eei, waitingListHeadKey, 11)), elems(qstr(s.eei, waitingListHeadKey, 12)), elems(qstr(s.eei, waitingListHeadKey, 13))
+@*/
+
+/*@
+// -- C39, well-formed queue. The ghost index function of the design (pos : key -> N) is given by its inverse, a key sequence:
+// qa(i) is the i-th key BEFORE an operation, qb(i) the i-th key AFTER it; ja()/jb() the index of the last jailed key. They are
+// uninterpreted: every clause below has the shape "queue well-formed along qa before, qb is qa with the new key inserted
+// ==> queue well-formed along qb after", proved for every interpretation.
+spec fn qa(i int) string
+spec fn qb(i int) string
+spec fn ja() int
+spec fn jb() int
+
+spec fn wfEndsA(e vm.SystemEI) bool = hdLen(e) >= 0 && (hdLen(e) > 0 ==> hdFirst(e) == qa(0) && hdLast(e) == qa(hdLen(e) - 1))
+spec fn wfLinksA(e vm.SystemEI) bool = forall i :: 0 <= i && i < hdLen(e) ==> qa(i) != "" && elPresent(e, qa(i)) && elPrev(e, qa(i)) == (i == 0 ? qa(0) : qa(i-1)) && elNext(e, qa(i)) == (i == hdLen(e) - 1 ? "" : qa(i+1))
+spec fn wfDistinctA(e vm.SystemEI) bool = forall i, j :: 0 <= i && i < j && j < hdLen(e) ==> qa(i) != qa(j)
+spec fn wfJailedA(e vm.SystemEI) bool = hdJailed(e) == "" || (0 <= ja() && ja() < hdLen(e) && hdJailed(e) == qa(ja()))
+spec fn wfA(e vm.SystemEI) bool = wfEndsA(e) && wfLinksA(e) && wfDistinctA(e) && wfJailedA(e)
+
+// qb = qa with key nk inserted at position p (n = length before)
+spec fn insertedAB(p int, n int, nk string) bool = qb(p) == nk && (forall i :: 0 <= i && i < p ==> qb(i) == qa(i)) && (forall i :: p <= i && i < n ==> qb(i+1) == qa(i)) && (forall i :: p < i && i <= n ==> qb(i) == qa(i-1))
+
+// the caller (addToWaitingList) has loaded the head into waitingList, incremented its Length and checked that the key is new
+spec fn headLoaded(s *stakingSC, wl *WaitingList) bool = wl != nil && wl.Length == hdLen(s.eei) + 1 && hdLen(s.eei) >= 1 && hdLen(s.eei) < 4294967295 && str(wl.FirstKey) == hdFirst(s.eei) && str(wl.LastKey) == hdLast(s.eei) && allocated(wl.FirstKey) && allocated(wl.LastKey) && allocated(wl.LastJailedKey)
+
+func (s *stakingSC) addToEndOfTheList(waitingList *WaitingList, blsKey []byte) (err error)
+  requires head-loaded-and-counted: headLoaded(s, waitingList)
+  requires queue-well-formed: wfA(s.eei)
+  requires key-is-new: !elPresent(s.eei, concat(waitingElementPrefix, str(blsKey)))
+  requires jailed-marker-loaded-or-new: str(waitingList.LastJailedKey) == hdJailed(s.eei) || str(waitingList.LastJailedKey) == concat(waitingElementPrefix, str(blsKey))
+  ensures  length-counts-new-key: err == nil ==> hdLen(s.eei) == old(hdLen(s.eei)) + 1
+  ensures  first-and-last-markers: err == nil && insertedAB(old(hdLen(s.eei)), old(hdLen(s.eei)), concat(waitingElementPrefix, old(str(blsKey)))) ==> hdFirst(s.eei) == qb(0) && hdLast(s.eei) == qb(hdLen(s.eei) - 1)
+  ensures  elements-stored: err == nil && insertedAB(old(hdLen(s.eei)), old(hdLen(s.eei)), concat(waitingElementPrefix, old(str(blsKey)))) ==> (forall i :: 0 <= i && i < hdLen(s.eei) ==> qb(i) != "" && elPresent(s.eei, qb(i)))
+  ensures  previous-links: err == nil && insertedAB(old(hdLen(s.eei)), old(hdLen(s.eei)), concat(waitingElementPrefix, old(str(blsKey)))) ==> (forall i :: 0 <= i && i < hdLen(s.eei) ==> elPrev(s.eei, qb(i)) == (i == 0 ? qb(0) : qb(i-1)))
+  ensures  next-links: err == nil && insertedAB(old(hdLen(s.eei)), old(hdLen(s.eei)), concat(waitingElementPrefix, old(str(blsKey)))) ==> (forall i :: 0 <= i && i < hdLen(s.eei) ==> elNext(s.eei, qb(i)) == (i == hdLen(s.eei) - 1 ? "" : qb(i+1)))
+  ensures  keys-distinct: err == nil && insertedAB(old(hdLen(s.eei)), old(hdLen(s.eei)), concat(waitingElementPrefix, old(str(blsKey)))) ==> (forall i, j :: 0 <= i && i < j && j < hdLen(s.eei) ==> qb(i) != qb(j))
+  ensures  jailed-marker: err == nil ==> hdJailed(s.eei) == old(str(waitingList.LastJailedKey))
+  ensures  new-element-holds-the-key: err == nil ==> elBls(s.eei, concat(waitingElementPrefix, old(str(blsKey)))) == old(str(blsKey))
+  assigns  waitingList.LastKey, elems(qint(s.eei, hdLast(s.eei), 20)), elems(qstr(s.eei, hdLast(s.eei), 21)), elems(qstr(s.eei, hdLast(s.eei), 22)), elems(qstr(s.eei, hdLast(s.eei), 23)), elems(qint(s.eei, concat(waitingElementPrefix, str(blsKey)), 20)), elems(qstr(s.eei, concat(waitingElementPrefix, str(blsKey)), 21)), elems(qstr(s.eei, concat(waitingElementPrefix, str(blsKey)), 22)), elems(qstr(s.eei, concat(waitingElementPrefix, str(blsKey)), 23)), elems(qint(s.eei, waitingListHeadKey, 10)), elems(qstr(s.eei, waitingListHeadKey, 11)), elems(qstr(s.eei, waitingListHeadKey, 12)), elems(qstr(s.eei, waitingListHeadKey, 13))
+
+// un-jailed keys go behind the last jailed one (to the front when there is none); p = position of the new key
+spec fn jailedPos(e vm.SystemEI) int = hdJailed(e) == "" ? 0 : ja() + 1
+
+func (s *stakingSC) insertAfterLastJailed(waitingList *WaitingList, blsKey []byte) (err error)
+  requires head-loaded-and-counted: headLoaded(s, waitingList) && str(waitingList.LastJailedKey) == hdJailed(s.eei)
+  requires queue-well-formed: wfA(s.eei)
+  requires key-is-new: !elPresent(s.eei, concat(waitingElementPrefix, str(blsKey)))
+  requires bls-keys-have-one-length: forall i :: 0 <= i && i < hdLen(s.eei) ==> len(qa(i)) == len(waitingElementPrefix) + len(blsKey)
+  ensures  length-counts-new-key: err == nil ==> hdLen(s.eei) == old(hdLen(s.eei)) + 1
+  ensures  first-and-last-markers: err == nil && insertedAB(old(jailedPos(s.eei)), old(hdLen(s.eei)), concat(waitingElementPrefix, old(str(blsKey)))) ==> hdFirst(s.eei) == qb(0) && hdLast(s.eei) == qb(hdLen(s.eei) - 1)
+  ensures  elements-stored: err == nil && insertedAB(old(jailedPos(s.eei)), old(hdLen(s.eei)), concat(waitingElementPrefix, old(str(blsKey)))) ==> (forall i :: 0 <= i && i < hdLen(s.eei) ==> qb(i) != "" && elPresent(s.eei, qb(i)))
+  ensures  previous-links: err == nil && insertedAB(old(jailedPos(s.eei)), old(hdLen(s.eei)), concat(waitingElementPrefix, old(str(blsKey)))) ==> (forall i :: 0 <= i && i < hdLen(s.eei) ==> elPrev(s.eei, qb(i)) == (i == 0 ? qb(0) : qb(i-1)))
+  ensures  next-links: err == nil && insertedAB(old(jailedPos(s.eei)), old(hdLen(s.eei)), concat(waitingElementPrefix, old(str(blsKey)))) ==> (forall i :: 0 <= i && i < hdLen(s.eei) ==> elNext(s.eei, qb(i)) == (i == hdLen(s.eei) - 1 ? "" : qb(i+1)))
+  ensures  keys-distinct: err == nil && insertedAB(old(jailedPos(s.eei)), old(hdLen(s.eei)), concat(waitingElementPrefix, old(str(blsKey)))) ==> (forall i, j :: 0 <= i && i < j && j < hdLen(s.eei) ==> qb(i) != qb(j))
+  ensures  jailed-marker-is-new-key: err == nil ==> hdJailed(s.eei) == concat(waitingElementPrefix, old(str(blsKey)))
+  ensures  new-element-holds-the-key: err == nil ==> elBls(s.eei, concat(waitingElementPrefix, old(str(blsKey)))) == old(str(blsKey))
+  assigns  waitingList.FirstKey, waitingList.LastKey, waitingList.LastJailedKey, elems(qint(s.eei, hdLast(s.eei), 20)), elems(qstr(s.eei, hdLast(s.eei), 21)), elems(qstr(s.eei, hdLast(s.eei), 22)), elems(qstr(s.eei, hdLast(s.eei), 23)), elems(qint(s.eei, hdJailed(s.eei), 20)), elems(qstr(s.eei, hdJailed(s.eei), 21)), elems(qstr(s.eei, hdJailed(s.eei), 22)), elems(qstr(s.eei, hdJailed(s.eei), 23)), elems(qint(s.eei, elNext(s.eei, hdJailed(s.eei)), 20)), elems(qstr(s.eei, elNext(s.eei, hdJailed(s.eei)), 21)), elems(qstr(s.eei, elNext(s.eei, hdJailed(s.eei)), 22)), elems(qstr(s.eei, elNext(s.eei, hdJailed(s.eei)), 23)), elems(qint(s.eei, concat(waitingElementPrefix, str(blsKey)), 20)), elems(qstr(s.eei, concat(waitingElementPrefix, str(blsKey)), 21)), elems(qstr(s.eei, concat(waitingElementPrefix, str(blsKey)), 22)), elems(qstr(s.eei, concat(waitingElementPrefix, str(blsKey)), 23)), elems(qint(s.eei, waitingListHeadKey, 10)), elems(qstr(s.eei, waitingListHeadKey, 11)), elems(qstr(s.eei, waitingListHeadKey, 12)), elems(qstr(s.eei, waitingListHeadKey, 13))
+@*/
+
+// ---- C38: delegation bookkeeping (appended block, agent M) ----
+/*@
+// GHOST MODEL of the delegation contract's records (same cells as the C39 block: qint(e,k,f)[0] = integer field f of the record
+// under key content k). Fund under key k: field 30 = Value (0 = no fund: saveFund deletes a fund whose value is zero), 31 = Epoch.
+// GlobalFundData under globalFundKey: field 40 = TotalActive, 41 = TotalUnStaked. The key the next created fund gets:
+// qstr(e, lastFundKey, 50)[0]. getFund has its (trusted) contract in the C36 block: it reads fundValue(d, key), a function of
+// the key slice that does not see writes; every function below that reads a fund therefore states as a precondition that this
+// read value is the stored one at entry (fund-read-is-current) and reads each fund at most once before writing it.
+spec fn fundVal(e vm.SystemEI, k string) int = qint(e, k, 30)[0]
+spec fn fundEp(e vm.SystemEI, k string) int = qint(e, k, 31)[0]
+spec fn gActive(e vm.SystemEI) int = qint(e, globalFundKey, 40)[0]
+spec fn gUnStaked(e vm.SystemEI) int = qint(e, globalFundKey, 41)[0]
+spec fn nextFundKey(e vm.SystemEI) string = qstr(e, lastFundKey, 50)[0]
+
+func (d *delegation) saveFund(key []byte, dFund *Fund) (err error)
+  trusted
+  requires dFund != nil && dFund.Value != nil
+  ensures  writes-fund: err == nil ==> fundVal(d.eei, str(key)) == big(dFund.Value) && fundEp(d.eei, str(key)) == dFund.Epoch
+  ensures  failure-writes-nothing: err != nil ==> fundVal(d.eei, str(key)) == old(fundVal(d.eei, str(key))) && fundEp(d.eei, str(key)) == old(fundEp(d.eei, str(key)))
+  assigns  elems(qint(d.eei, str(key), 30)), elems(qint(d.eei, str(key), 31))
+
+func (d *delegation) getGlobalFundData() (g *GlobalFundData, err error)
+  trusted
+  ensures  failure-returns-nil: err != nil ==> g == nil
+  ensures  reads-totals: err == nil ==> g != nil && fresh(g) && g.TotalActive != nil && fresh(g.TotalActive) && g.TotalUnStaked != nil && fresh(g.TotalUnStaked) && g.TotalActive != g.TotalUnStaked && big(g.TotalActive) == gActive(d.eei) && big(g.TotalUnStaked) == gUnStaked(d.eei)
+  assigns  nothing
+
+func (d *delegation) saveGlobalFundData(globalFundData *GlobalFundData) (err error)
+  trusted
+  requires globalFundData != nil && globalFundData.TotalActive != nil && globalFundData.TotalUnStaked != nil
+  ensures  writes-totals: err == nil ==> gActive(d.eei) == big(globalFundData.TotalActive) && gUnStaked(d.eei) == big(globalFundData.TotalUnStaked)
+  ensures  failure-writes-nothing: err != nil ==> gActive(d.eei) == old(gActive(d.eei)) && gUnStaked(d.eei) == old(gUnStaked(d.eei))
+  assigns  elems(qint(d.eei, globalFundKey, 40)), elems(qint(d.eei, globalFundKey, 41))
+
+// a new fund gets the next key of the counter; that key holds no fund yet (keys are never reused: the counter only grows)
+func (d *delegation) createAndSaveNextKeyFund(address []byte, value *big.Int, fundType uint32) (r []byte, err error)
+  trusted
+  requires value != nil
+  ensures  failure-returns-nil: err != nil ==> len(r) == 0 && fundVal(d.eei, old(nextFundKey(d.eei))) == old(fundVal(d.eei, nextFundKey(d.eei)))
+  ensures  new-fund-under-next-key: err == nil ==> fresh(r) && str(r) == old(nextFundKey(d.eei)) && old(fundVal(d.eei, nextFundKey(d.eei))) == 0 && fundVal(d.eei, str(r)) == big(value) && fundEp(d.eei, str(r)) == d.eei.BlockChainHook().CurrentEpoch()
+  ensures  counter-advanced: err == nil ==> nextFundKey(d.eei) != old(nextFundKey(d.eei))
+  assigns  elems(qint(d.eei, nextFundKey(d.eei), 30)), elems(qint(d.eei, nextFundKey(d.eei), 31)), elems(qstr(d.eei, lastFundKey, 50))
+
+// delta: the one touched fund grows by exactly the value
+func (d *delegation) addValueToFund(key []byte, value *big.Int) (err error)
+  requires value != nil
+  requires fund-read-is-current: fundValue(d, key) == fundVal(d.eei, str(key))
+  ensures  fund-grows-by-value: err == nil ==> fundVal(d.eei, str(key)) == old(fundVal(d.eei, str(key))) + old(big(value))
+  ensures  failure-writes-nothing: err != nil ==> fundVal(d.eei, str(key)) == old(fundVal(d.eei, str(key)))
+  assigns  elems(qint(d.eei, str(key), 30)), elems(qint(d.eei, str(key), 31))
+
+// sum of the (entry-state) values of the first j funds of a key list
+spec fn sumFunds(d *delegation, fs [][]byte, j int) int
+  axiom sumFunds(d, fs, 0) == 0
+  axiom j > 0 ==> sumFunds(d, fs, j) == sumFunds(d, fs, j-1) + fundValue(d, fs[j-1])
+
+func (d *delegation) computeTotalUnStaked(delegator *DelegatorData) (r *big.Int, err error)
+  requires delegator != nil
+  ensures  failure-returns-nil: err != nil ==> r == nil
+  ensures  sum-of-unstaked-funds: err == nil ==> r != nil && fresh(r) && big(r) == sumFunds(d, delegator.UnStakedFunds, len(delegator.UnStakedFunds))
+  assigns  nothing
+
+loop 1
+  invariant -1 <= rangeindex && rangeindex < len(delegator.UnStakedFunds)
+  invariant totalUnStaked != nil && fresh(totalUnStaked) && big(totalUnStaked) == sumFunds(d, delegator.UnStakedFunds, rangeindex + 1)
+
+// what can be withdrawn: some of the funds (those past the un-bonding period), never more than all of them
+// (fundEpoch: the epoch getFund reads, one line added to getFund's contract in the C36 block with the coordinator's consent)
+spec fn fundEpoch(d *delegation, key []byte) int
+spec fn wrap32(x int) int = ((x % 4294967296) + 4294967296) % 4294967296
+spec fn sumUnBondable(d *delegation, fs [][]byte, j int, epoch int, period int) int
+  axiom sumUnBondable(d, fs, 0, epoch, period) == 0
+  axiom j > 0 ==> sumUnBondable(d, fs, j, epoch, period) == sumUnBondable(d, fs, j-1, epoch, period) + (wrap32(epoch - fundEpoch(d, fs[j-1])) < period ? 0 : fundValue(d, fs[j-1]))
+
+func (d *delegation) getUnBondableTokens(delegator *DelegatorData, unBondPeriodInEpochs uint32) (r *big.Int, err error)
+  requires delegator != nil && d.eei != nil
+  ensures  failure-returns-nil: err != nil ==> r == nil
+  ensures  sum-of-funds-past-the-unbond-period: err == nil ==> big(r) == sumUnBondable(d, delegator.UnStakedFunds, len(delegator.UnStakedFunds), d.eei.BlockChainHook().CurrentEpoch(), unBondPeriodInEpochs)
+  ensures  at-most-all-unstaked-funds: err == nil ==> r != nil && fresh(r) && 0 <= big(r) && big(r) <= sumFunds(d, delegator.UnStakedFunds, len(delegator.UnStakedFunds))
+  assigns  nothing
+
+loop 1
+  invariant -1 <= rangeindex && rangeindex < len(delegator.UnStakedFunds)
+  invariant totalUnBondable != nil && fresh(totalUnBondable) && 0 <= big(totalUnBondable) && big(totalUnBondable) <= sumFunds(d, delegator.UnStakedFunds, rangeindex + 1)
+  invariant 0 <= sumFunds(d, delegator.UnStakedFunds, rangeindex + 1)
+  invariant currentEpoch == d.eei.BlockChainHook().CurrentEpoch() && big(totalUnBondable) == sumUnBondable(d, delegator.UnStakedFunds, rangeindex + 1, currentEpoch, unBondPeriodInEpochs)
+
+// un-delegated value goes into the delegator's un-staked funds: the last fund grows (same epoch) or a new fund is appended;
+// either way the delegator's un-staked funds grow by exactly the value and every listed key holds a fund
+spec fn lastFund(dd *DelegatorData) string = str(dd.UnStakedFunds[len(dd.UnStakedFunds) - 1])
+
+func (d *delegation) addNewUnStakedFund(delegatorAddress []byte, delegator *DelegatorData, unStakeValue *big.Int) (err error)
+  requires delegator != nil && unStakeValue != nil && d.eei != nil && allocated(delegator.UnStakedFunds)
+  requires fund-read-is-current: len(delegator.UnStakedFunds) > 0 ==> fundValue(d, delegator.UnStakedFunds[len(delegator.UnStakedFunds) - 1]) == fundVal(d.eei, lastFund(delegator))
+  ensures  last-fund-grows-or-new-fund: err == nil ==> (len(delegator.UnStakedFunds) == old(len(delegator.UnStakedFunds)) && len(delegator.UnStakedFunds) > 0 && lastFund(delegator) == old(lastFund(delegator)) && fundVal(d.eei, lastFund(delegator)) == old(fundVal(d.eei, lastFund(delegator))) + old(big(unStakeValue))) || (len(delegator.UnStakedFunds) == old(len(delegator.UnStakedFunds)) + 1 && lastFund(delegator) == old(nextFundKey(d.eei)) && old(fundVal(d.eei, nextFundKey(d.eei))) == 0 && fundVal(d.eei, lastFund(delegator)) == old(big(unStakeValue)))
+  ensures  earlier-keys-kept: err == nil ==> (forall k :: 0 <= k && k < old(len(delegator.UnStakedFunds)) ==> str(delegator.UnStakedFunds[k]) == old(str(delegator.UnStakedFunds[k])))
+  ensures  failure-keeps-the-list: err != nil ==> len(delegator.UnStakedFunds) == old(len(delegator.UnStakedFunds))
+  assigns  delegator.UnStakedFunds, elems(delegator.UnStakedFunds), elems(qint(d.eei, lastFund(delegator), 30)), elems(qint(d.eei, lastFund(delegator), 31)), elems(qint(d.eei, nextFundKey(d.eei), 30)), elems(qint(d.eei, nextFundKey(d.eei), 31)), elems(qstr(d.eei, lastFundKey, 50))
+
+// ---- withdraw --------------------------------------------------------------------------------------------------------------
+// environment interface: messages and gas have no effect on the records; Transfer pays out (ghost counter paid(e)); SetStorage
+// replaces whatever typed record is stored under the key, an empty value deletes it
+spec fn paid(e vm.SystemEI) int = qint(e, "", 70)[0]
+spec fn dlgStored(e vm.SystemEI, a string) bool = qint(e, a, 60)[0] == 1
+spec fn dlgLen(e vm.SystemEI, a string) int = qint(e, a, 61)[0]
+
+func (eei vm.SystemEI) AddReturnMessage(msg string)
+  assigns  nothing
+
+func (eei vm.SystemEI) UseGas(gasToConsume uint64) (err error)
+  assigns  nothing
+
+func (eei vm.SystemEI) Transfer(destination []byte, sender []byte, value *big.Int, input []byte, gasLimit uint64) (err error)
+  ensures  paid-out: err == nil ==> paid(eei) == old(paid(eei)) + old(big(value))
+  ensures  failure-pays-nothing: err != nil ==> paid(eei) == old(paid(eei))
+  assigns  elems(qint(eei, "", 70))
+
+func (eei vm.SystemEI) SetStorage(key []byte, value []byte)
+  ensures  empty-value-deletes-the-record: len(value) == 0 ==> qint(eei, str(key), 0)[0] == 0 && qint(eei, str(key), 20)[0] == 0 && fundVal(eei, str(key)) == 0 && qint(eei, str(key), 60)[0] == 0 && qint(eei, str(key), 61)[0] == 0
+  assigns  elems(qint(eei, str(key), 0)), elems(qint(eei, str(key), 1)), elems(qint(eei, str(key), 2)), elems(qint(eei, str(key), 3)), elems(qint(eei, str(key), 4)), elems(qint(eei, str(key), 10)), elems(qint(eei, str(key), 20)), elems(qint(eei, str(key), 30)), elems(qint(eei, str(key), 31)), elems(qint(eei, str(key), 40)), elems(qint(eei, str(key), 41)), elems(qint(eei, str(key), 60)), elems(qint(eei, str(key), 61)), elems(qstr(eei, str(key), 11)), elems(qstr(eei, str(key), 12)), elems(qstr(eei, str(key), 13)), elems(qstr(eei, str(key), 21)), elems(qstr(eei, str(key), 22)), elems(qstr(eei, str(key), 23)), elems(qstr(eei, str(key), 50))
+
+// the delegator record as loaded for an address: fundKeyAt(d, addr, k) is its k-th un-staked fund key. Assumed at load (and to be
+// re-established by whoever saves the record): the keys are pairwise different and getFund reads their stored values
+spec fn fundKeyAt(d *delegation, addr []byte, k int) []byte
+spec fn fundList(d *delegation, addr []byte) [][]byte
+spec fn sumK(d *delegation, addr []byte, j int) int
+  axiom sumK(d, addr, 0) == 0
+  axiom j > 0 ==> sumK(d, addr, j) == sumK(d, addr, j-1) + fundValue(d, fundKeyAt(d, addr, j-1))
+
+func (d *delegation) getOrCreateDelegatorData(address []byte) (isNew bool, dd *DelegatorData, err error)
+  trusted
+  ensures  failure-returns-nil: err != nil ==> dd == nil
+  ensures  reads-record: err == nil ==> dd != nil && fresh(dd) && dd.UnClaimedRewards != nil && dd.TotalCumulatedRewards != nil && allocated(dd.UnStakedFunds) && len(dd.UnStakedFunds) == dlgLen(d.eei, str(address)) && dlgLen(d.eei, str(address)) >= 0 && (isNew ==> dlgLen(d.eei, str(address)) == 0)
+  ensures  lists-fund-keys: err == nil ==> dd.UnStakedFunds == fundList(d, address) && (forall k :: 0 <= k && k < len(dd.UnStakedFunds) ==> dd.UnStakedFunds[k] == fundKeyAt(d, address, k) && allocated(fundKeyAt(d, address, k)))
+  ensures  fund-keys-are-not-reserved-keys: err == nil ==> (forall k :: 0 <= k && k < len(dd.UnStakedFunds) ==> str(fundKeyAt(d, address, k)) != globalFundKey && str(fundKeyAt(d, address, k)) != str(address))
+  ensures  fund-keys-distinct: err == nil ==> (forall i, j :: 0 <= i && i < j && j < len(dd.UnStakedFunds) ==> str(fundKeyAt(d, address, i)) != str(fundKeyAt(d, address, j)))
+  assigns  nothing
+
+func (d *delegation) saveDelegatorData(address []byte, dData *DelegatorData) (err error)
+  trusted
+  requires dData != nil
+  ensures  writes-record: err == nil ==> dlgStored(d.eei, str(address)) && dlgLen(d.eei, str(address)) == len(dData.UnStakedFunds)
+  ensures  failure-writes-nothing: err != nil ==> dlgLen(d.eei, str(address)) == old(dlgLen(d.eei, str(address)))
+  assigns  elems(qint(d.eei, str(address), 60)), elems(qint(d.eei, str(address), 61))
+
+func (d *delegation) getDelegationContractConfig() (c *DelegationConfig, err error)
+  trusted
+  ensures  err != nil ==> c == nil
+  ensures  err == nil ==> c != nil && fresh(c)
+  assigns  nothing
+
+// the nested call into the validator contract: arbitrary return data and code; assumed not to touch the delegation contract's
+// own records (the validator contract writes under its own address)
+func (d *delegation) executeOnValidatorSCWithValueInArgs(scAddress []byte, functionToCall string, actionValue *big.Int) (data [][]byte, code vmcommon.ReturnCode)
+  trusted
+  assigns  nothing
+
+// the amount the validator contract reports (last return datum), the requested value if it reports nothing: NOT bounded by the request
+spec fn respAmt(returnData [][]byte, userVal *big.Int) int
+func (d *delegation) resolveUnStakedUnBondResponse(returnData [][]byte, userVal *big.Int) (r *big.Int, err error)
+  trusted
+  ensures  err == nil && r != nil && big(r) == respAmt(returnData, userVal) && respAmt(returnData, userVal) >= 0 && (len(returnData) == 0 ==> r == userVal) && (len(returnData) != 0 ==> fresh(r))
+  assigns  nothing
+
+// deletes the record of a delegator without funds and rewards (not verified here: computeAndUpdateRewards, status record)
+func (d *delegation) deleteDelegatorIfNeeded(address []byte, delegator *DelegatorData) (err error)
+  trusted
+  ensures  deletes-only-empty-records: dlgLen(d.eei, str(address)) == old(dlgLen(d.eei, str(address))) && (dlgStored(d.eei, str(address)) != old(dlgStored(d.eei, str(address))) ==> len(delegator.UnStakedFunds) == 0 && len(delegator.ActiveFund) == 0)
+  assigns  elems(qint(d.eei, str(address), 60))
+
+func (d *delegation) withdraw(args *vmcommon.ContractCallInput) (r vmcommon.ReturnCode)
+  nosafety
+  requires args != nil && args.CallValue != nil && d.eei != nil && zero != nil && big(zero) == 0 && allocated(zero)
+  requires total-unstaked-not-negative: gUnStaked(d.eei) >= 0
+  ensures  total-unstaked-follows-payout: r == vmcommon.Ok ==> gUnStaked(d.eei) == old(gUnStaked(d.eei)) - (paid(d.eei) - old(paid(d.eei)))
+  ensures  emptied-delegator-was-paid-in-full: r == vmcommon.Ok && dlgLen(d.eei, old(str(args.CallerAddr))) == 0 ==> paid(d.eei) - old(paid(d.eei)) >= sumK(d, args.CallerAddr, old(dlgLen(d.eei, str(args.CallerAddr))))
+  ensures  payout-at-most-total-unstaked: r == vmcommon.Ok ==> paid(d.eei) - old(paid(d.eei)) <= old(gUnStaked(d.eei))
+
+// (the loop calls interface methods with a frame: the verifier forgets the whole heap at the loop head, every fact is restated)
+loop 1
+  invariant -1 <= rangeindex && rangeindex < len(delegator.UnStakedFunds)
+  invariant d.eei == old(d.eei) && d.eei != nil && args.CallerAddr == old(args.CallerAddr) && args.RecipientAddr == old(args.RecipientAddr) && str(args.CallerAddr) == old(str(args.CallerAddr))
+  invariant globalFund.TotalActive != nil && globalFund.TotalUnStaked != nil && globalFund.TotalActive != globalFund.TotalUnStaked && globalFund.TotalUnStaked != actualUserUnBond && globalFund.TotalUnStaked != totalUnBonded && allocated(globalFund.TotalUnStaked) && allocated(globalFund.TotalActive)
+  invariant delegator.UnStakedFunds == fundList(d, args.CallerAddr) && base(tempUnStakedFunds) != base(delegator.UnStakedFunds) && len(delegator.UnStakedFunds) == old(dlgLen(d.eei, str(args.CallerAddr)))
+  invariant forall k :: 0 <= k && k < len(delegator.UnStakedFunds) ==> delegator.UnStakedFunds[k] == fundKeyAt(d, args.CallerAddr, k)
+  invariant forall k :: 0 <= k && k < len(delegator.UnStakedFunds) ==> str(fundKeyAt(d, args.CallerAddr, k)) != globalFundKey && str(fundKeyAt(d, args.CallerAddr, k)) != str(args.CallerAddr)
+  invariant rangeindex + 1 < len(delegator.UnStakedFunds) ==> delegator.UnStakedFunds[rangeindex + 1] == fundKeyAt(d, args.CallerAddr, rangeindex + 1) && str(fundKeyAt(d, args.CallerAddr, rangeindex + 1)) != globalFundKey && str(fundKeyAt(d, args.CallerAddr, rangeindex + 1)) != str(args.CallerAddr)
+  invariant len(tempUnStakedFunds) == 0 ==> big(totalUnBonded) == sumK(d, args.CallerAddr, rangeindex + 1)
+  invariant big(totalUnBonded) <= big(actualUserUnBond) && big(actualUserUnBond) == respAmt(returnData, totalUnBondable) && big(zero) == 0
+  invariant gUnStaked(d.eei) == old(gUnStaked(d.eei))
+  invariant paid(d.eei) == old(paid(d.eei))
+  invariant big(globalFund.TotalUnStaked) == old(gUnStaked(d.eei))
+  invariant dlgLen(d.eei, str(args.CallerAddr)) == old(dlgLen(d.eei, str(args.CallerAddr)))
 @*/
